@@ -506,6 +506,7 @@ func (h *File) Write(b []byte) (int, error) {
 			if k > 0 {
 				f.stream(h.stdio, buf[:k], step, task)
 			}
+			f.FailedWrites = append(f.FailedWrites, buf)
 			return k, &PathError{Op: "write", Path: h.name, Err: r.Err}
 		}
 		f.stream(h.stdio, buf, step, task)
